@@ -177,15 +177,68 @@ def st_tls_case(draw: st.DrawFn, tier: str) -> dict:
         "frag_to_peer": draw(st.sampled_from([[1 << 20], [1000], [13]])),
         "delays": [0.0],
         "mem_script": {"send_yield": draw(st.lists(st.integers(0, 2), min_size=1, max_size=3)), "send_split": draw(st.sampled_from([[0], [0, 5], [1000]]))},
+        # per SSLObject.write() call: what the TLS engine does (see _ScriptedSSLObject); empty = the real engine only
+        "ssl_script": draw(
+            st.one_of(
+                st.just([]),
+                st.lists(st.one_of(st.just("ok"), st.just("ok"), st.just("want_read"), st.tuples(st.just("partial"), st.sampled_from([1, 3, 50, 16000])).map(list)), max_size=8),
+            )
+        ),
     }
 
 
+class _ScriptedSSLObject:
+    """Stands in front of the transport's ssl.SSLObject and makes write() behave as OpenSSL legitimately may: accept only
+    part of the buffer (the return value is the number of bytes taken), or refuse with SSLWantReadError because the engine
+    must first read a record from the peer (renegotiation, key update: not reachable with a stdlib peer, hence injected).
+    After a want-read the caller has to retry with the same data once more ciphertext has arrived; `on_want_read` lets the
+    harness make the peer send a small record so that there is something to read."""
+
+    def __init__(self, real: Any, script: list, on_want_read: Any) -> None:
+        self._real = real
+        self._script = deque(script)
+        self._on_want_read = on_want_read
+        self.injected: list[str] = []
+
+    def write(self, data: Any) -> int:
+        import ssl
+
+        step = self._script.popleft() if self._script else "ok"
+        with memoryview(data) as view:
+            if step == "want_read" and view.nbytes > 0:
+                self.injected.append("want_read")
+                self._on_want_read()
+                raise ssl.SSLWantReadError(ssl.SSL_ERROR_WANT_READ, "injected: the engine needs to read first")
+            if isinstance(step, list) and step[0] == "partial" and 0 < step[1] < view.nbytes:
+                self.injected.append("partial")
+                return self._real.write(view[: step[1]])
+            return self._real.write(view)
+
+    def __getattr__(self, name: str) -> Any:
+        return getattr(self._real, name)
+
+
+_tls_progress: dict = {}
+
+
 async def _tls_session(case: dict) -> dict:
+    _tls_progress.clear()
     backend, mem, peer, wire = tlsharness.new_session(case)
     conductor = asyncio.create_task(wire.conductor())
     expected = bytearray()
     try:
         tls = await tlsharness.wrap_sut(case, mem)
+        nudges: list[bytes] = []
+
+        def nudge() -> None:
+            nudges.append(b"nudge-%d;" % len(nudges))
+            peer.write(nudges[-1])
+            wire.kick()
+
+        proxy = None
+        if case.get("ssl_script"):
+            proxy = _ScriptedSSLObject(tls._ssl_object, [list(x) if isinstance(x, (list, tuple)) else x for x in case["ssl_script"]], nudge)
+            tls._ssl_object = proxy
         idx = 0
         for sizes in case["sends"]:
             chunks = []
@@ -199,34 +252,61 @@ async def _tls_session(case: dict) -> dict:
             else:
                 expected += b"".join(chunks)
                 await tls.send_all_from_iterable(iter(chunks))
+        _tls_progress.update(sends_done=True, expected=bytes(expected), peer=peer)
         await wire.wait_until(lambda: len(peer.plain_in) >= len(expected) or peer.error is not None)
         for _ in range(3):
             await asyncio.sleep(0)
+        # what the peer sent to unblock injected want-reads is ordinary application data for the SUT's reader
+        want_in = b"".join(nudges)
+        got_in = bytearray()
+        while len(got_in) < len(want_in):
+            data = await tls.recv(65536)
+            if not data:
+                break
+            got_in += data
+        injected = list(proxy.injected) if proxy is not None else []
         await tls.aclose()
     finally:
         wire.stop = True
         wire.kick()
         conductor.cancel()
         await asyncio.gather(conductor, return_exceptions=True)
-    return {"expected": bytes(expected), "got": bytes(peer.plain_in), "peer_error": repr(peer.error) if peer.error else None}
+    return {
+        "expected": bytes(expected),
+        "got": bytes(peer.plain_in),
+        "peer_error": repr(peer.error) if peer.error else None,
+        "nudges_in": bytes(got_in),
+        "nudges_want": want_in,
+        "injected": injected,
+    }
 
 
 def run_tls_case(case: dict) -> Outcome:
     try:
         r = run_virtual(_tls_session, case)
     except Deadlock as exc:
+        if _tls_progress.get("sends_done"):
+            got = bytes(_tls_progress["peer"].plain_in)
+            exp = _tls_progress["expected"]
+            raise Violation(
+                "bytes-mismatch",
+                f"every send returned but the peer only ever decrypts {len(got)} of {len(exp)} bytes (first diff {_first_diff(got, exp)})",
+            ) from exc
         raise Violation("blocks-forever", f"async TLS send did not terminate: {exc}") from exc
     if r["peer_error"]:
         raise Violation("peer-error", r["peer_error"])
     if r["got"] != r["expected"]:
         raise Violation("bytes-mismatch", f"peer decrypted {len(r['got'])} bytes, expected {len(r['expected'])} (first diff {_first_diff(r['got'], r['expected'])})")
+    if r["nudges_in"] != r["nudges_want"]:
+        raise Violation("inbound-mismatch", f"records read while a write was waiting for the engine were lost: {r['nudges_in']!r} != {r['nudges_want']!r}")
     flat = [n for s in case["sends"] for n in s]
-    classes = ["single" if case["single"] else "iterable"]
+    classes = ["single" if case["single"] else "iterable"] + sorted({f"engine-{x}" for x in r["injected"]})
     if 0 in flat:
         classes.append("empty-chunk")
     if any(len(s) == 0 for s in case["sends"]):
         classes.append("empty-iterable")
-    return Outcome(nontrivial=(0 in flat or any(len(s) == 0 for s in case["sends"])) and len(flat) >= 2, classes=tuple(classes))
+    nt = ((0 in flat or any(len(s) == 0 for s in case["sends"])) and len(flat) >= 2) or (bool(r["injected"]) and len(flat) >= 2)
+    return Outcome(nontrivial=nt, classes=tuple(classes))
 
 
 CHECK = Check(
